@@ -85,10 +85,11 @@ def gen_clean_spec(prng, n, topos, n_motifs, tries=30):
     used = set()
     motifs = []
     spec0 = {"topos": topos}
+    placeable = [k for k, t in enumerate(topos) if not t.get("part_only")]        # chord entries are never placed alone
     for _ in range(n_motifs):
-        k = prng.randrange(len(topos))
+        k = placeable[prng.randrange(len(placeable))]
         t = topos[k]
-        if motif_size(t) > n or t.get("part_only"):
+        if motif_size(t) > n:
             continue
         for _ in range(tries):
             vs = prng.sample(range(n), motif_size(t))
